@@ -133,6 +133,94 @@ entry of row vector `j` becomes its row (pixel) index in column `j`. -/
 def fromSparseRows (npix : Nat) (modes : List (SCol K)) : Basis K :=
   .sparse npix modes.length modes
 
+/-! ## The constructor dispatch (`ModeBasis.__init__`, l.24-58)
+
+`Input` describes the Python object handed to the constructor; `fromInput` is the decision the
+constructor takes on it (`issparse(matrix)`, `issparse(matrix[0])`, "every element has one row",
+`isinstance(matrix, (list, tuple))`) followed by the conversion of the chosen branch
+(`csc_matrix(…)`, `vstack(…).T.tocsc()`, `np.stack(…, axis=-1)`, `np.asarray`).  `none` stands
+for the `ValueError` raised by `np.stack` / `scipy.sparse.vstack` on an empty, ragged or mixed
+list.  Outside the model (not generated by the harness): a list whose first element is a sparse
+matrix and that contains a sparse matrix of more than one row (the code then stacks the objects
+into a useless object array without raising), and mixed lists over a grid of one point (a
+length-one vector passes the `shape[0] == 1` test for sparse rows). -/
+
+inductive SpFmt where
+  | csc | csr | coo
+deriving Repr, DecidableEq
+
+/-- one element of a list / tuple handed to the constructor -/
+inductive Mode (K : Type) where
+  /-- an array_like / `Field`: one value per grid point -/
+  | vec (v : List K)
+  /-- a SciPy sparse matrix of shape `(nrows, ncols)`; for a row vector (`nrows = 1`) `entries`
+  are its stored `(column index, value)` pairs -/
+  | sp (nrows ncols : Nat) (entries : SCol K)
+deriving Repr
+
+inductive Input (K : Type) where
+  /-- a two-dimensional `ndarray` -/
+  | ndarray (npix nmodes : Nat) (rows : List (List K))
+  /-- a SciPy sparse matrix: CSC `(indptr, indices, data)`, CSR `(indptr, indices, data)` or
+  COO `(row, col, data)` -/
+  | spmat (fmt : SpFmt) (npix nmodes : Nat) (p q : List Nat) (data : List K)
+  /-- a Python list (`isTuple = false`) or tuple of modes -/
+  | seq (isTuple : Bool) (items : List (Mode K))
+deriving Repr
+
+/-- `csc_matrix(A)` for a CSR matrix `A` given as its list of stored rows: column `j` collects,
+row by row, the stored entries with column index `j`. -/
+def transposeRows (m : Nat) (rows : List (SCol K)) : List (SCol K) :=
+  (List.range m).map fun j =>
+    (List.range rows.length).flatMap fun i =>
+      ((rows.getD i []).filter fun p => p.1 == j).map fun p => (i, p.2)
+
+/-- `csc_matrix(A)` for a COO matrix: column `j` collects the triples with column index `j` -/
+def cooCols (m : Nat) (row col : List Nat) (data : List K) : List (SCol K) :=
+  (List.range m).map fun j =>
+    ((col.zip (row.zip data)).filter fun t => t.1 == j).map fun t => t.2
+
+/-- every element a dense vector of the given length (`np.stack` accepts the list) -/
+def allVec (n : Nat) : List (Mode K) → Option (List (List K))
+  | [] => some []
+  | .vec v :: rest => if v.length = n then (allVec n rest).map (v :: ·) else none
+  | .sp .. :: _ => none
+
+/-- every element a sparse matrix with one row and `n` columns (`vstack` accepts the list and
+the constructor takes it for a list of sparse modes) -/
+def allRow (n : Nat) : List (Mode K) → Option (List (SCol K))
+  | [] => some []
+  | .sp nr nc e :: rest => if nr = 1 ∧ nc = n then (allRow n rest).map (e :: ·) else none
+  | .vec _ :: _ => none
+
+def fromInput [Zero K] : Input K → Option (Basis K)
+  | .ndarray n m rows => some (fromDense n m rows)
+  | .spmat .csc n m ip ix d => some (fromCSC n m ip ix d)
+  | .spmat .csr n m ip ix d => some (.sparse n m (transposeRows m (splitCSC n ip ix d)))
+  | .spmat .coo n m r c d => some (.sparse n m (cooCols m r c d))
+  | .seq _ [] => none
+  | .seq _ (.sp nr nc e :: rest) => (allRow nc (.sp nr nc e :: rest)).map (fromSparseRows nc)
+  | .seq _ (.vec v :: rest) => (allVec v.length (.vec v :: rest)).map (fromFields v.length)
+
+/-- What NumPy/SciPy guarantee about the object an `Input` describes (shapes of an ndarray,
+lengths and index ranges of the arrays of a sparse matrix).  The driver evaluates this very
+predicate on every `new` request and answers `bad-op` when it fails — so every basis the driver
+ever builds comes from a valid input, and `Properties/C14.lean` (`fromInput_WF`) proves that
+this makes the basis well-formed (`WF`, the hypothesis of the basis theorems). -/
+def Mode.valid : Mode K → Bool
+  | .vec _ => true
+  | .sp _ nc e => e.all fun p => p.1 < nc
+
+def Input.valid : Input K → Bool
+  | .ndarray n m rows => rows.length == n && rows.all (·.length == m)
+  | .spmat .csc n m p q d =>
+    p.length == m + 1 && q.length == d.length && q.all (· < n) && p.getLast? == some d.length
+  | .spmat .csr n m p q d =>
+    p.length == n + 1 && q.length == d.length && q.all (· < m) && p.getLast? == some d.length
+  | .spmat .coo n m p q d =>
+    p.length == d.length && q.length == d.length && p.all (· < n) && q.all (· < m)
+  | .seq _ items => items.all Mode.valid
+
 /-! ## Operations -/
 
 /-- `linear_combination`: `transformation_matrix.dot(coefficients)`.  Dense: row-by-row dot
@@ -263,8 +351,13 @@ def getItemOld [Zero K] [Add K] (b : Basis K) (ix : Index) : Except IdxErr (Item
 
 `x = argmin ‖A x − b‖²` through the normal equations `Aᴴ A x = Aᴴ b`, solved exactly by
 Gauss–Jordan elimination; `none` when `Aᴴ A` is singular (dependent modes).  `conj` is complex
-conjugation (`id` for a real scalar).  The result is certified by `normalResidual = 0`
-(see `Properties/C14.lean`: a solution of the normal equations minimises the residual). -/
+conjugation (`id` for a real scalar).  The driver certifies every result it prints by evaluating
+`certified conj b x y` (`normalResidual conj b x y = 0` and `x.length = nmodes`, exactly; defined
+below); `Properties/C14.lean` proves that this evaluation never fails (`lstsq_sound`: the Gauss–Jordan model is
+sound) and that `lstsq` always answers for independent modes (`lstsq_complete`, so
+`lstsq_total`: `lstsq conj b (A·c) = some c`), that `certified … = true` makes `x` a minimiser of the residual (`normal_eq_minimises`, `…_complex`), hence
+equal to `c` when `y = A·c` with independent modes (`lstsq_certified_recovers`), and that the
+result does not depend on the storage form (`coefficients_storage_independent`). -/
 
 def elimRow [Zero K] [Sub K] [Mul K] (k : Nat) (p r : List K) : List K :=
   let f := r.getD k 0
@@ -302,6 +395,13 @@ def lstsq [Zero K] [Add K] [Sub K] [Mul K] [Div K] [DecidableEq K] (conj : K →
 def normalResidual [Zero K] [Add K] [Sub K] [Mul K] (conj : K → K) (b : Basis K) (x y : List K) :
     List K :=
   matvec (adjRows conj b) (List.zipWith (· - ·) (matvec (toDense b) x) y)
+
+/-- The exact certificate the driver evaluates on the output `x` of `lstsq` before it answers
+`coefficients_for` with it: the normal equations hold exactly and `x` has one coefficient per
+mode.  `Properties/C14.lean` states the least-squares theorems about this very predicate. -/
+def certified [Zero K] [Add K] [Sub K] [Mul K] [DecidableEq K] (conj : K → K) (b : Basis K)
+    (x y : List K) : Bool :=
+  (normalResidual conj b x y).all (· == 0) && x.length == b.nmodes
 
 end
 
